@@ -537,6 +537,9 @@ func (t *tr) call(x *ast.CallExpr) ([]bind, string, typ) {
 		}
 		if id, ok := f.X.(*ast.Ident); ok && t.imports[id.Name] {
 			if _, local := t.env[id.Name]; !local {
+				if pre, term, ty, ok := t.libCall(x, id.Name+"."+f.Sel.Name); ok {
+					return pre, term, ty
+				}
 				t.un(x, "call of "+id.Name+"."+f.Sel.Name+" in an expression")
 			}
 		}
@@ -1438,7 +1441,7 @@ func main() {
 			fmt.Fprintf(&b, "     .%s = %s   (a constant: the string literal every composite literal of the\n       receiver's type sets, never assigned; read from the source)\n", k, usedConsts[k])
 		}
 	}
-	fmt.Fprintf(&b, "*)\nFrom Tab Require Import Base.GoSem.\nLocal Open Scope Z_scope.\n")
+	fmt.Fprintf(&b, "%s*)\nFrom Tab Require Import Base.GoSem%s.\nLocal Open Scope Z_scope.\n", libHeader(), libImport())
 	for _, d := range defs {
 		b.WriteString("\n")
 		b.WriteString(d)
@@ -1450,4 +1453,78 @@ func main() {
 	if err := os.WriteFile(*out, []byte(b.String()), 0o644); err != nil {
 		usage(err.Error())
 	}
+}
+
+// ---------------------------------------------------------------- pure standard-library calls
+// Each has a definition in coq/Base/GoLib.v (the ASSUMED meaning of the library
+// function, stated there once); a generated file that uses one imports GoLib and
+// lists it in its header.
+
+var usedLibs = map[string]string{}
+
+func libHeader() string {
+	if len(usedLibs) == 0 {
+		return ""
+	}
+	var ks []string
+	for k := range usedLibs {
+		ks = append(ks, k)
+	}
+	sort.Strings(ks)
+	s := "\n   ASSUMED standard-library functions (definitions: Base/GoLib.v):\n"
+	for _, k := range ks {
+		s += "     " + k + " = " + usedLibs[k] + "\n"
+	}
+	return s
+}
+
+func libImport() string {
+	if len(usedLibs) == 0 {
+		return ""
+	}
+	return " Base.GoLib"
+}
+
+func (t *tr) libCall(x *ast.CallExpr, name string) ([]bind, string, typ, bool) {
+	str := func(e ast.Expr) ([]bind, string) {
+		p, a, ty := t.expr(e)
+		if ty != tString {
+			t.un(e, name+" operand of type "+string(ty))
+		}
+		return p, a
+	}
+	switch name {
+	case "html.EscapeString":
+		if len(x.Args) != 1 {
+			t.un(x, name+" argument count")
+		}
+		p, a := str(x.Args[0])
+		usedLibs[name+"(s)"] = "lib_html_EscapeString s   (the five characters & ' < > and the double quote, to &amp; &#39; &lt; &gt; &#34;)"
+		return p, "(lib_html_EscapeString " + atom(a) + ")", tString, true
+	case "strings.Replace":
+		if len(x.Args) != 4 {
+			t.un(x, name+" argument count")
+		}
+		// only: a one-byte literal pattern, every occurrence (n = -1)
+		lit, ok := x.Args[1].(*ast.BasicLit)
+		if !ok || lit.Kind != token.STRING {
+			t.un(x, "strings.Replace whose pattern is not a string literal")
+		}
+		old, err := strconv.Unquote(lit.Value)
+		if err != nil || len(old) != 1 {
+			t.un(x, "strings.Replace whose pattern is not a one-byte literal")
+		}
+		u, ok := x.Args[3].(*ast.UnaryExpr)
+		if !ok || u.Op != token.SUB {
+			t.un(x, "strings.Replace with a count other than -1")
+		}
+		if n, ok := u.X.(*ast.BasicLit); !ok || n.Kind != token.INT || n.Value != "1" {
+			t.un(x, "strings.Replace with a count other than -1")
+		}
+		p1, s := str(x.Args[0])
+		p2, nw := str(x.Args[2])
+		usedLibs[name+"(s, b, new, -1), b a one-byte literal"] = "lib_strings_Replace1 b new s   (every occurrence of the byte b)"
+		return append(p1, p2...), fmt.Sprintf("(lib_strings_Replace1 %d%%N %s %s)", old[0], atom(nw), atom(s)), tString, true
+	}
+	return nil, "", "", false
 }
